@@ -111,4 +111,9 @@ theorem C15_gen_primitive_map :
   gen_obligation "C15_gen_primitive_map: the regenerated code (Utv.Gen) is no longer equal to the hand model here" by
     refine ⟨?_, ?_, ?_, ?_, ?_, ?_, ?_, ?_, ?_, ?_, ?_⟩ <;> first | decide | (intro n; rfl)
 
+/-- `JsonSchemaParser.TYPE_KEYWORDS` (parser.py): which keywords reveal an untyped schema's type (`inferType`) -/
+theorem C15_gen_type_keywords : typeKeywords = JsonTables.PARSER_TYPE_KEYWORDS := by
+  gen_obligation "C15_gen_type_keywords: the regenerated code (Utv.Gen) is no longer equal to the hand model here" by
+    decide
+
 end Utv.GenEq.C15
